@@ -207,6 +207,18 @@ func c09ServerSide(c *fw.Ctx, idx int64, pm polMode, r *rand.Rand) {
 		if ch == nil {
 			continue
 		}
+		renewed := ""
+		if vi%3 == 1 {
+			// every third variant meets a channel whose token has been renewed: the server also holds the previous one
+			ch.Conn.SetReadDeadline(time.Now().Add(5 * time.Second))
+			if _, err := ch.Open(true, 3600000); err != nil {
+				ch.Close()
+				c.Class("server-side:renewal-before-variant-failed", 1)
+				continue
+			}
+			ch.Conn.SetReadDeadline(time.Time{})
+			renewed = " after a renewal"
+		}
 		bad := int64(idx*1_000_000 + 100 + int64(vi))
 		seq := ch.TakeSeq()
 		body := writeBody(ch, tok, bad, 901)
@@ -216,7 +228,7 @@ func c09ServerSide(c *fw.Ctx, idx int64, pm polMode, r *rand.Rand) {
 			ch.Close()
 			continue
 		}
-		cs := c09E2ECase{Side: "server", Policy: p.Name, Mode: pm.mode, Mutation: name, Hex: hexTrunc(hostile)}
+		cs := c09E2ECase{Side: "server", Policy: p.Name, Mode: pm.mode, Mutation: name + renewed, Hex: hexTrunc(hostile)}
 		c.Journal(idx, cs)
 		ch.WriteRaw(hostile)
 		// wait until the server has dealt with it: a response, an error or the end of the connection
